@@ -1,6 +1,7 @@
 //go:build !c26worker
 
-// C26 — Nonce-protected cluster requests cannot be replayed (exploration: exhaustive time grid).
+// C26 — Nonce-protected cluster requests cannot be replayed (exploration: exhaustive time grid +
+// exhaustive multi-event histories on one cache).
 //
 // Two stages, because the code under test reads time.Now() directly and has no clock seam:
 //
@@ -69,6 +70,26 @@ type parsed struct {
 var srcOverlay = map[string]string{}
 
 func loadSrcOverlay() {
+	// VERIF_REPLACE="repo/rel/file.go=/abs/replacement.go,..." is the framework-wide form of the same
+	// facility (./check hands it to overlaygen for the DRIVER build only; the worker is built by this
+	// driver with its own overlay, so the replacements have to be carried over here or a variant of
+	// the repository would silently be checked as the unchanged tree).
+	if env := os.Getenv("VERIF_REPLACE"); env != "" {
+		for _, kv := range strings.Split(env, ",") {
+			p := strings.SplitN(kv, "=", 2)
+			if len(p) != 2 || p[0] == "" {
+				continue
+			}
+			src := p[1]
+			if !filepath.IsAbs(src) {
+				src = filepath.Join(harnessDir, src)
+			}
+			if _, err := os.Stat(src); err != nil {
+				unbound("VERIF_REPLACE: %v", err)
+			}
+			srcOverlay[filepath.Join(repo, p[0])] = src
+		}
+	}
 	p := os.Getenv("VERIF_C26_SRC_OVERLAY")
 	if p == "" {
 		return
@@ -512,6 +533,55 @@ func generate(workDir string) *genOut {
 	g.sites["clock_rewrite"] = strings.Join(rewritten, " ")
 	addTarget(filepath.Join(repo, secPkgDir, "zz_verif_c26_clock.go"), filepath.Join(harnessDir, "inpkg/security/zz_verif_c26_clock.go"))
 
+	// --- 1b. the nonce cache's own periods (sweep interval, ...) ---------------------------------
+	// Every package-level constant/variable of nonce_cache.go whose declaration mentions the time
+	// package is handed, by name, to an accessor compiled into the package; the worker keeps those
+	// that really are time.Durations and builds the history grid around them (60 s, 60 s ± 1 s,
+	// retention − 60 s, ...). The VALUES come from the compiled package, not from this parse.
+	{
+		p := parseRel(filepath.Join(secPkgDir, "nonce_cache.go"))
+		timeName := p.localName("time")
+		var names []string
+		for _, d := range p.f.Decls {
+			gd, ok := d.(*ast.GenDecl)
+			if !ok || (gd.Tok != token.CONST && gd.Tok != token.VAR) || timeName == "" {
+				continue
+			}
+			for _, sp := range gd.Specs {
+				vs := sp.(*ast.ValueSpec)
+				mentions := false
+				ast.Inspect(vs, func(n ast.Node) bool {
+					if s, ok := n.(*ast.SelectorExpr); ok {
+						if id, ok := s.X.(*ast.Ident); ok && id.Name == timeName {
+							mentions = true
+						}
+					}
+					return true
+				})
+				if !mentions {
+					continue
+				}
+				for _, n := range vs.Names {
+					if n.Name != "_" {
+						names = append(names, n.Name)
+					}
+				}
+			}
+		}
+		sort.Strings(names)
+		var sbb strings.Builder
+		sbb.WriteString("// Code generated by /verif check C26 from the current /repo working tree; DO NOT EDIT.\npackage security\n\nimport zzTime \"time\"\n\n")
+		sbb.WriteString("func verifC26AsDur(v any) (zzTime.Duration, bool) { d, ok := v.(zzTime.Duration); return d, ok }\n\n")
+		sbb.WriteString("// VerifC26DurationConsts: package-level time.Duration constants/variables of nonce_cache.go.\n")
+		sbb.WriteString("func VerifC26DurationConsts() map[string]zzTime.Duration {\n\tm := map[string]zzTime.Duration{}\n")
+		for _, n := range names {
+			fmt.Fprintf(&sbb, "\tif d, ok := verifC26AsDur(%s); ok {\n\t\tm[%q] = d\n\t}\n", n, n)
+		}
+		sbb.WriteString("\treturn m\n}\n")
+		addTarget(filepath.Join(repo, secPkgDir, "zz_verif_c26_gen.go"), write("security__zz_verif_c26_gen.go", sbb.String()))
+		g.sites["nonce_cache_duration_names"] = strings.Join(names, " ")
+	}
+
 	// --- 2. internal/cluster: Start()'s cache, the two handlers' tolerances -------------------
 	var assigns []siteExpr
 	for _, rel := range goFiles(clusterDir) {
@@ -779,82 +849,7 @@ var expectedTrackSites = []string{
 }
 
 // ---------------------------------------------------------------------------------------------
-// shared result types (mirrored in worker.go)
-
-type Case struct {
-	Site    string `json:"site"`
-	OffS    int64  `json:"ts_offset_s"`     // signed timestamp minus receiver's unix second at first receipt
-	DelayNs int64  `json:"replay_delay_ns"` // replay arrival minus first receipt
-	Phi1Ns  int64  `json:"recv_phase_ns"`   // sub-second phase of the first receipt
-	FirstS  int64  `json:"first_receipt_after_construction_s"`
-	Ticks   bool   `json:"eviction_ticks"` // unrelated valid traffic every 61 s between the two arrivals
-}
-
-type Obs struct {
-	Case       Case   `json:"case"`
-	TolS       int64  `json:"tolerance_s"`
-	TTLNs      int64  `json:"nonce_ttl_ns"`
-	Orig       string `json:"original"` // accepted | rejected:<why>
-	Replay     string `json:"replay"`
-	OrigDrift  int64  `json:"original_drift_s"` // receiver second minus signed timestamp
-	ReplDrift  int64  `json:"replay_drift_s"`
-	TicksSent  int    `json:"ticks_sent"`
-	TicksTaken int    `json:"ticks_accepted"`
-}
-
-type Class struct {
-	Kind     string `json:"kind"`
-	Site     string `json:"site"`
-	Region   string `json:"region"`
-	Count    int    `json:"count"`
-	Min      Obs    `json:"min"`
-	MaxDelay int64  `json:"max_replay_delay_ns"`
-	MinOff   int64  `json:"min_ts_offset_s"`
-	MaxOff   int64  `json:"max_ts_offset_s"`
-}
-
-type SiteInfo struct {
-	TolNs int64 `json:"tolerance_ns"`
-	TTLNs int64 `json:"nonce_ttl_ns"`
-}
-
-type WorkerOut struct {
-	Sites          map[string]SiteInfo `json:"sites"`
-	Cases          int                 `json:"cases"`
-	Deliveries     int                 `json:"deliveries"`
-	NonTrivial     int                 `json:"nontrivial"`
-	Outcomes       map[string]int      `json:"outcomes"`
-	Classes        []Class             `json:"classes"`
-	Samples        []Obs               `json:"samples"`
-	ClockReads     int64               `json:"clock_reads"`
-	FreshRejected  int                 `json:"fresh_rejected"`
-	Exhaustive     bool                `json:"exhaustive"`
-	Errors         []string            `json:"errors"`
-	GridOffsets    map[string]int      `json:"grid_offsets"`
-	GridDelays     map[string]int      `json:"grid_delays"`
-	AcceptedOrigin map[string]int      `json:"accepted_originals"`
-}
-
-func caseLess(a, b Case) bool {
-	k := func(c Case) [6]int64 {
-		t, neg := int64(0), int64(0)
-		if c.Ticks {
-			t = 1
-		}
-		ab := c.OffS
-		if ab < 0 {
-			ab, neg = -ab, 1
-		}
-		return [6]int64{t, c.FirstS, c.Phi1Ns, c.DelayNs, ab, neg}
-	}
-	x, y := k(a), k(b)
-	for i := range x {
-		if x[i] != y[i] {
-			return x[i] < y[i]
-		}
-	}
-	return false
-}
+// result types: shared.go
 
 // symbolic rendering keeps the signature stable if the configured numbers change
 func durS(ns int64) string {
@@ -902,6 +897,36 @@ func signature(c Class) string {
 			offS = "-" + durS(-off)
 		}
 	}
+	if o.Case.Hist != "" {
+		// history case: deliveries and non-zero advances, advances near the retention written relative to it
+		var ev []string
+		for _, t := range strings.Fields(o.Case.Hist) {
+			if t[0] != '+' {
+				ev = append(ev, t)
+				continue
+			}
+			n, _ := strconv.ParseInt(t[1:], 10, 64)
+			if n == 0 {
+				continue
+			}
+			v := n * 1e9
+			switch d := v - o.TTLNs; {
+			case d == 0:
+				ev = append(ev, "+ttl")
+			case d > 0 && d <= sigSweepNs+2e9:
+				ev = append(ev, "+ttl+"+durS(d))
+			case d < 0 && -d <= sigSweepNs+2e9:
+				ev = append(ev, "+ttl-"+durS(-d))
+			default:
+				if s, ok := symRel(v, []string{"tol"}, []int64{tolNs}); ok {
+					ev = append(ev, "+"+s)
+				} else {
+					ev = append(ev, "+"+durS(v))
+				}
+			}
+		}
+		return fmt.Sprintf("%s|%s|tol=%ds,ttl=%s|%s|ts=recv%s|history=%s", c.Kind, c.Site, o.TolS, durS(o.TTLNs), c.Region, offS, strings.Join(ev, ","))
+	}
 	delay, ok := symRel(o.Case.DelayNs, []string{"ttl", "2tol", "tol"}, []int64{o.TTLNs, 2 * tolNs, tolNs})
 	if !ok {
 		delay = durS(o.Case.DelayNs)
@@ -918,6 +943,11 @@ func signature(c Class) string {
 	}
 	return sig
 }
+
+// sigSweepNs: the largest sweep/eviction period of the nonce cache found in the compiled package
+// (60 s when none was found); history advances within that distance of the retention are written
+// relative to it in signatures.
+var sigSweepNs = int64(60e9)
 
 // ---------------------------------------------------------------------------------------------
 
@@ -1014,10 +1044,14 @@ func main() {
 		exit(run.Finish)
 	}
 
-	nw := 8
+	nw := 16
 	workerDeadline := run.Deadline
+	// the worker build counts against the run's clock; on a loaded machine a cold build can eat most of
+	// the quick budget, so the enumeration always gets at least 3 minutes of its own
+	if d := time.Now().Add(3 * time.Minute); d.After(workerDeadline) {
+		workerDeadline = d
+	}
 	if !run.Quick() {
-		nw = 16
 		// thorough budget is 15 min wall: stop enumerating after 12 and report exhaustive=false
 		if d := time.Now().Add(12 * time.Minute); d.Before(workerDeadline) {
 			workerDeadline = d
@@ -1043,7 +1077,8 @@ func main() {
 	}
 
 	// merge
-	tot := &WorkerOut{Outcomes: map[string]int{}, GridOffsets: map[string]int{}, GridDelays: map[string]int{}, AcceptedOrigin: map[string]int{}, Exhaustive: true}
+	tot := &WorkerOut{Outcomes: map[string]int{}, GridOffsets: map[string]int{}, GridDelays: map[string]int{}, AcceptedOrigin: map[string]int{}, Exhaustive: true,
+		HistByLen: map[string]int{}, UnrelatedSeen: map[string]int{}}
 	classes := map[string]*Class{}
 	var samples []Obs
 	for _, w := range outs {
@@ -1054,6 +1089,20 @@ func main() {
 			tot.Sites = w.Sites
 		} else if fmt.Sprint(tot.Sites) != fmt.Sprint(w.Sites) {
 			exit(func() { ev.Nondeterminism("workers disagree on site tolerances/TTLs") })
+		}
+		if tot.Intervals == nil {
+			tot.Intervals, tot.IntervalsAssumed, tot.HistGaps = w.Intervals, w.IntervalsAssumed, w.HistGaps
+		} else if fmt.Sprint(tot.Intervals, tot.HistGaps) != fmt.Sprint(w.Intervals, w.HistGaps) {
+			exit(func() { ev.Nondeterminism("workers disagree on the nonce cache's duration constants / history grid") })
+		}
+		tot.HistCases += w.HistCases
+		tot.Retried += w.Retried
+		tot.HistNonTrivial += w.HistNonTrivial
+		for k, v := range w.HistByLen {
+			tot.HistByLen[k] += v
+		}
+		for k, v := range w.UnrelatedSeen {
+			tot.UnrelatedSeen[k] += v
 		}
 		tot.Cases += w.Cases
 		tot.Deliveries += w.Deliveries
@@ -1103,7 +1152,17 @@ func main() {
 		siteNames = append(siteNames, s)
 	}
 	sort.Strings(siteNames)
+	for _, v := range tot.Intervals {
+		if v > sigSweepNs {
+			sigSweepNs = v
+		}
+	}
 	for _, s := range siteNames {
+		if tot.AcceptedOrigin[s] == 0 && !tot.Exhaustive {
+			exit(func() {
+				unbound("site %s: the time budget ran out before the site was reached (worker build took %.0fs); re-run on a less loaded machine", s, buildS)
+			})
+		}
 		if tot.AcceptedOrigin[s] == 0 {
 			exit(func() {
 				unbound("site %s: not one in-window original was accepted under the virtual clock — the handler reads time some other way, or the harness no longer speaks its protocol", s)
@@ -1151,7 +1210,21 @@ func main() {
 	run.Coverage["evaluations"] = tot.Cases
 	run.Coverage["deliveries"] = tot.Deliveries
 	run.Coverage["distinct_nontrivial"] = tot.NonTrivial
-	run.Coverage["rule"] = "per message type (replicate-sync, forward-apply, cache-invalidate, edge-sync-file, edge-sync-reconcile): fresh real handler + nonce cache built by the call site's own expression at virtual time T0; a signed message (timestamp = receiver second + offset) is delivered at T0+first+phase and the byte-identical message again `delay` later, optionally with unrelated valid traffic every 61 s in between (eviction sweeps). Grid = offsets x delays x recv-phase {0,0.5s} x delay sub-second {0,+0.999999999s} x first-receipt {0,61s} x ticks {off,on} (quick: edge values of tol/ttl; thorough adds every whole second of offset in [-tol-2,tol+2] x every whole second of delay in [0,max(2tol,ttl)+3]). Every tuple is distinct by construction; a case counts as non-trivial when the original was accepted and the replay arrived while its timestamp was still inside the window (only the nonce cache can stop it)."
+	run.Coverage["rule"] = "per message type (replicate-sync, forward-apply, cache-invalidate, edge-sync-file, edge-sync-reconcile): fresh real handler + nonce cache built by the call site's own expression at virtual time T0; a signed message (timestamp = receiver second + offset) is delivered at T0+first+phase and the byte-identical message again `delay` later, optionally with unrelated valid traffic every 61 s in between (eviction sweeps). Grid = offsets x delays x recv-phase {0,0.5s} x delay sub-second {0,+0.999999999s} x first-receipt {0,61s} x ticks {off,on} (quick: edge values of tol/ttl; thorough adds every whole second of offset in [-tol-2,tol+2] x every whole second of delay in [0,max(2tol,ttl)+3]). Every tuple is distinct by construction; a case counts as non-trivial when the original was accepted and the replay arrived while its timestamp was still inside the window (only the nonce cache can stop it). HISTORIES (history_cases of the evaluations): every sequence of 2..4 deliveries on ONE handler + cache with exactly one first delivery M (timestamp = receiver second + offset), a final byte-identical replay R after it and unrelated authentic deliveries in the other positions, each U (same sender, fresh nonce) or V (another node id, the SAME nonce), every delivery preceded by a clock advance from the gap grid {0, 1s, I-1s, I, I+1s, ttl-I-1s, ttl-I, ttl-I+1s, ttl-1s, ttl, ttl+1s} (I = every time.Duration constant of nonce_cache.go as compiled, i.e. the sweep interval; history_gap_grid_s lists the values), the advances between M and R summing to at most 2*tol+2s (beyond that R is outside the window for every offset; the time grid covers that side), x the 9 edge offsets. quick: shapes MR, MXR, XMR, MXXR with the time from construction to the first delivery in {0, I+1s}; thorough adds XMXR, XXMR and construction gap I. Any accepted R after an accepted M is a violation; U and V are expected to be accepted (counted in unrelated_deliveries, a rejection is not a violation of this property)."
+	run.Coverage["history_cases"] = tot.HistCases
+	run.Coverage["cases_retried_after_harness_error"] = tot.Retried
+	run.Coverage["history_cases_by_shape"] = tot.HistByLen
+	run.Coverage["history_nontrivial"] = tot.HistNonTrivial
+	run.Coverage["history_gap_grid_s"] = tot.HistGaps
+	run.Coverage["unrelated_deliveries"] = tot.UnrelatedSeen
+	iv := map[string]string{}
+	for k, v := range tot.Intervals {
+		iv[k] = durS(v)
+	}
+	run.Coverage["nonce_cache_duration_constants"] = iv
+	if tot.IntervalsAssumed {
+		run.Assume("no time.Duration constant was found in nonce_cache.go: the history grid assumes a 60 s sweep interval")
+	}
 	run.Coverage["exhaustive"] = tot.Exhaustive
 	run.Coverage["outcomes"] = tot.Outcomes
 	run.Coverage["accepted_originals"] = tot.AcceptedOrigin
@@ -1185,8 +1258,8 @@ func main() {
 	run.Assume("TTL and tolerance are the values of the call sites' own expressions (Coordinator.Start, cmd/arc/main.go, handler validate calls), evaluated by the compiler in their package; cmd/arc expressions must reduce to package-level constants and imported names")
 	run.Assume("handlers are driven in isolation: Coordinator without Raft/replication sender (accept = reply past the auth gate), edge-sync without the API-token layer (authManager nil); join/leave/heartbeat/fetch/checkpoint MACs carry no nonce-cache check in the code and are outside this property's four message types")
 	run.Assume("a rejected in-window ORIGINAL is not a violation of this property (counted in fresh_in_window_rejected)")
-	fmt.Printf("C26 %s: %d cases, %d deliveries, %d non-trivial, %d violation classes, sites=%v, worker build %.1fs\n",
-		run.Tier, tot.Cases, tot.Deliveries, tot.NonTrivial, len(classes), st, buildS)
+	fmt.Printf("C26 %s: %d cases (%d multi-event histories %v, %d of them non-trivial; cache periods %v), %d deliveries, %d non-trivial, %d violation classes, exhaustive=%v, sites=%v, worker build %.1fs\n",
+		run.Tier, tot.Cases, tot.HistCases, tot.HistByLen, tot.HistNonTrivial, iv, tot.Deliveries, tot.NonTrivial, len(classes), tot.Exhaustive, st, buildS)
 	ok := []string{}
 	for k, v := range tot.Outcomes {
 		ok = append(ok, fmt.Sprintf("%s=%d", k, v))
@@ -1200,8 +1273,12 @@ func describe(c Class) string {
 	o := c.Min
 	switch c.Kind {
 	case "replay-accepted":
-		return fmt.Sprintf("%s: byte-identical (sender, nonce) message accepted twice: tolerance %ds, nonce TTL %s; original at drift %+ds accepted, replay %s later at drift %+ds accepted (%d grid cases in class; timestamp offsets %+d..%+ds, replay delays up to %s)",
-			c.Site, o.TolS, durS(o.TTLNs), o.OrigDrift, durS(o.Case.DelayNs), o.ReplDrift, c.Count, c.MinOff, c.MaxOff, durS(c.MaxDelay))
+		how := ""
+		if o.Case.Hist != "" {
+			how = fmt.Sprintf(" [history %q, ts offset %+ds: %s]", o.Case.Hist, o.Case.OffS, o.Events)
+		}
+		return fmt.Sprintf("%s: byte-identical (sender, nonce) message accepted twice: tolerance %ds, nonce TTL %s; original at drift %+ds accepted, replay %s later at drift %+ds accepted%s (%d grid cases in class; timestamp offsets %+d..%+ds, replay delays up to %s)",
+			c.Site, o.TolS, durS(o.TTLNs), o.OrigDrift, durS(o.ElapsedNs), o.ReplDrift, how, c.Count, c.MinOff, c.MaxOff, durS(c.MaxDelay))
 	default:
 		return fmt.Sprintf("%s: message accepted although its timestamp is outside the ±%ds window (original drift %+ds -> %s, replay drift %+ds -> %s; %d grid cases in class)",
 			c.Site, o.TolS, o.OrigDrift, o.Orig, o.ReplDrift, o.Replay, c.Count)
